@@ -348,7 +348,7 @@ pub fn run(args: &Args) -> ! {
     let dl = args.deadline();
     let mut rep = Report::new("C02", "exploration");
     let mut all = Stats::default();
-    let (k1, k2, max_pow, pairs) = args.tier.pick((3usize, 2usize, 13u32, false), (4, 3, 17, true));
+    let (k1, k2, max_pow, pairs) = args.tier.pick((3usize, 2usize, 13u32, false), (3, 3, 17, true));
 
     // (b) nesting families first (they are the part that fails fastest)
     let fs = families();
